@@ -720,3 +720,38 @@ Qed.
 Lemma tolerated_failures_as_successes fuel p r tmo o :
   perform fuel p r tmo o = perform fuel p r tmo (heal p o).
 Proof. apply tolerated_ignored, heal_agree. Qed.
+
+(** * Part 3: runScene's barrier always completes *)
+Definition wg_inv (s : wgstate) : Prop :=
+  wg_count s = Z.of_nat (wg_running s) /\ (wg_reported s + wg_running s = wg_launched s)%nat.
+
+Lemma wstep_inv s l s' : wg_inv s -> wstep true s l = Some s' -> wg_inv s'.
+Proof.
+  unfold wg_inv. intros [Hc Hr] H. destruct l as [[|]|]; cbn in H.
+  - inversion H; subst; cbn. split; lia.
+  - inversion H; subst; cbn. split; lia.
+  - destruct (wg_running s) eqn:E; [discriminate|]. inversion H; subst; cbn. split; lia.
+Qed.
+
+(** Whatever mixture of started and refused line tasks, in any interleaving
+    with the tasks ending: the counter equals the number of tasks still
+    running — so [wg.Wait] returns exactly when all started tasks have ended,
+    also when every task was refused — and every line delivers exactly one
+    value to errCh (never more than its capacity). *)
+Lemma scene_barrier_completes ls s :
+  wrun true wg_init ls = Some s ->
+  wg_count s = Z.of_nat (wg_running s) /\ (wg_reported s + wg_running s = wg_launched s)%nat.
+Proof.
+  assert (forall ls s0 s, wg_inv s0 -> wrun true s0 ls = Some s -> wg_inv s) as K.
+  { induction ls0 as [|l ls0 IH]; intros s0 s1 Hi H; cbn in H.
+    - inversion H; subst; assumption.
+    - destruct (wstep true s0 l) as [s2|] eqn:E; [|discriminate].
+      eapply IH; [eapply wstep_inv; eassumption | exact H]. }
+  intros H. apply (K ls wg_init s); [unfold wg_inv; cbn; split; lia | exact H].
+Qed.
+
+(** Without the compensating [wg.Done] of the refusal branch a single refused
+    line leaves the counter at 1 with nothing running: [wg.Wait] never returns. *)
+Lemma scene_barrier_without_done_stuck :
+  exists ls s, wrun false wg_init ls = Some s /\ wg_running s = 0%nat /\ wg_count s > 0.
+Proof. exists [WLaunch LRefused]. eexists. cbn. repeat split. Qed.
